@@ -181,6 +181,9 @@ class SplineCalibrator(Calibrator):
         x = [float(p.raw) for p in self.points]
         y = [float(p.calibrated) for p in self.points]
         if min(x) <= query_point <= max(x):
+            if query_point == max(x):
+                # The last spline point belongs to the (closed) range but has no greater neighbor
+                return y[-1]
             first_greater = [p.raw > query_point for p in self.points].index(True)
             return y[first_greater - 1]
         if query_point > max(x) and self.extrapolate:
@@ -227,6 +230,9 @@ class SplineCalibrator(Calibrator):
         x = [p.raw for p in self.points]
         y = [p.calibrated for p in self.points]
         if min(x) <= query_point <= max(x):
+            if query_point == max(x):
+                # The last spline point belongs to the (closed) range but has no greater neighbor
+                return y[-1]
             first_greater = [p.raw > query_point for p in self.points].index(True)
             return linear_func(query_point,
                                x[first_greater - 1], x[first_greater],
